@@ -190,6 +190,9 @@ pub fn run(ctx: &Ctx) -> Report {
     let max_states = if thorough { 6_000_000 } else { 1_500_000 };
 
     let mut alphabets = vec![alphabet_r1(thorough), alphabet_r2()];
+    if thorough {
+        alphabets.push(alphabet_r2_big());
+    }
     let r3: Vec<usize> = (0..11).collect();
     for i in r3 {
         alphabets.push(alphabet_r3(SIGN_TYPES[i].0, SIGN_TYPES[(i + 1) % 11].0));
